@@ -3,10 +3,9 @@
    (and of the pose-class operators over them), with what happened when it was called with symbolic arguments
    (Ok / SymRaises: only the symbolic path raises / BothRaise: the numeric path raises too / NumRaises).
 
-   FULL STATEMENT (false on the unchanged tree because of genuine defects of the code, see known/C16.json):
+   FULL STATEMENT, proved since HEAD 66a8f3b (C16_callforms_all_ok):
        forall e f st, In (e, f, st) callforms -> st = Ok.
-   It is refuted by a witness, and proved outside the listed root causes: a call form that STARTS failing is not in
-   the list and breaks C16_callforms_partial.  The domain is the finite table; vm_compute is a proof here. *)
+   The domain is the finite table regenerated on every run; vm_compute is a proof here. *)
 From Coq Require Import String List Bool.
 From SMgen Require Import Traces_C16.
 Import ListNotations.
@@ -16,42 +15,31 @@ Definition is_ok (s : form_status) : bool := match s with Ok => true | _ => fals
 Definition pair_eqb (a b : string * string) : bool := (String.eqb (fst a) (fst b) && String.eqb (snd a) (snd b))%bool.
 Definition mem (x : string * string) (l : list (string * string)) : bool := existsb (pair_eqb x) l.
 
-(* the call forms that still fail.  Repaired since the first rounds (and therefore REQUIRED to be Ok by
-   C16_callforms_partial): rot*/trot*/SE3.R*(sym,'deg') 61ca10f, eul2r/eul2tr scalars eb98c88, trot*(num, t=sym) e615f54,
-   SE2.inv, SE2/SE2, SO2.inv, SO2/SO2 d486d19 + 1c511ed, SE3.jacob 5493c9a, Twist3.R*(scalar) e531d4d *)
-Definition failing_not_symbolic :=     (* SE3.Delta normalises with trnorm -> unitvec compares a symbolic norm with a threshold *)
-  [("SE3.Delta","array")].
-Definition failing_linalg :=           (* np.linalg.matrix_power / inv on an object array *)
-  [("op.SE3**n","X**-1")].
-Definition expected_failing := (failing_not_symbolic ++ failing_linalg)%list.
+(* Every defect that made a call form fail has been repaired in /repo (last: X ** -n fbf47d0, SE3.Delta 2d89a18), so the
+   FULL statement is proved; the _refuted/_partial pair of the earlier rounds is gone.  A call form that starts failing
+   (on either path) breaks this theorem. *)
+Definition expected_failing : list (string * string) := [].
 
-Theorem C16_callforms_refuted : exists e f, In (e, f, SymRaises) callforms.
+Theorem C16_callforms_all_ok : forall e f st, In (e, f, st) callforms -> st = Ok.
 Proof.
-  assert (H : existsb (fun r => match r with (_, _, SymRaises) => true | _ => false end) callforms = true) by (vm_compute; reflexivity).
-  apply existsb_exists in H. destruct H as [[[e f] st] [Hin Hst]]. exists e, f. destruct st; try discriminate. exact Hin.
+  assert (H : forallb (fun r => match r with (_, _, st) => is_ok st end) callforms = true) by (vm_compute; reflexivity).
+  intros e f st Hin. rewrite forallb_forall in H. specialize (H _ Hin). cbv beta iota in H.
+  destruct st; try discriminate; reflexivity.
 Qed.
-Print Assumptions C16_callforms_refuted.
+Print Assumptions C16_callforms_all_ok.
 
-Theorem C16_callforms_partial : forall e f st, In (e, f, st) callforms -> mem (e, f) expected_failing = false -> st = Ok.
-Proof.
-  assert (H : forallb (fun r => match r with (e, f, st) => (is_ok st || mem (e, f) expected_failing)%bool end) callforms = true)
-    by (vm_compute; reflexivity).
-  intros e f st Hin Hm. rewrite forallb_forall in H. specialize (H _ Hin). cbv beta iota in H.
-  rewrite Hm, orb_false_r in H. destruct st; try discriminate; reflexivity.
-Qed.
-Print Assumptions C16_callforms_partial.
-
-(* non-vacuity: most of the table is outside the list and therefore proved Ok; every tabled entry has a working form *)
+(* non-vacuity: the table is large and contains the forms named below *)
 Example C16_callforms_nonvacuous :
-  Nat.leb 100 (length (filter (fun r => match r with (e, f, _) => negb (mem (e, f) expected_failing) end) callforms)) = true /\
+  Nat.leb 250 (length callforms) = true /\
   existsb (fun r => match r with (e, f, Ok) => pair_eqb (e, f) ("base.rotx", "theta") | _ => false end) callforms = true /\
   existsb (fun r => match r with (e, f, Ok) => pair_eqb (e, f) ("op.SE3*SE3", "X*Y") | _ => false end) callforms = true /\
-  (* repaired entries: must stay Ok (they are no longer in the list, so C16_callforms_partial covers them) *)
+  (* the table really contains the repaired forms (so C16_callforms_all_ok is about them) *)
   forallb (fun p => existsb (fun r => match r with (e, f, Ok) => pair_eqb (e, f) p | _ => false end) callforms)
     [("SE3.jacob", "X.jacob()"); ("base.rotx","theta,'deg'"); ("base.trotz","theta,'deg'"); ("SE3.Ry","theta,'deg'");
      ("base.eul2r","phi,theta,psi (3 scalars)"); ("base.eul2tr","phi,0.2,0.3 (scalars)"); ("base.trotx","0.3,t=[x,y,z]");
      ("Twist3.Rx","theta (scalar)"); ("op.SE2.inv","X.inv()"); ("op.SE2/SE2","X / Y"); ("op.SO2.inv","A.inv()");
-     ("op.SO2/SO2","A / B")] = true.
+     ("op.SO2/SO2","A / B"); ("SE3.Delta","d (array)"); ("SE3.Delta","[x,0.2,0.3,a,0.1,c]"); ("op.SE3**n","X ** -1");
+     ("op.SE3**n","X ** -2"); ("op.SO2**n","A ** -1"); ("op.SE3 scalar","X*s (mul)"); ("op.SO2 scalar","s-X (rsub)")] = true.
 (* (the form names of the repaired entries were changed when they were repaired, so that no stale known-finding key of the
    earlier rounds can match a regression) *)
 Proof. repeat split; vm_compute; reflexivity. Qed.
